@@ -1,9 +1,52 @@
-(* C07: Bytecode dump and load round trip preserves the program.  (placeholder until the
-   proofs of Proofs/DumpLoadProofs.v are merged) *)
-From BCL Require Import Model.DumpLoad.
+(* C07: Streaming parse does not depend on how the input is chunked.
+
+   Model: Model/Lexer.v (lex.go with the repaired next()), Model/Parser.v, Model/Api.v.
+   `lex cs` runs the lexer over ANY sequence of chunks: empty chunks, boundaries inside tokens,
+   inside multi-byte UTF-8 characters, between the two characters of an operator or an escape.
+   The theorems have no side condition on the chunking ("admissible" of the design is True
+   after the repair 44cc475). *)
+From BCL Require Import Model.Api Proofs.LineCalcProofs Proofs.LexerProofs.
+Open Scope N_scope.
+
+(* one call of next() on any chunking = one step on the concatenated unread bytes *)
+Theorem C07_next_abs : forall c, anext (abs c) = (fst (next c), abs (snd (next c))).
+Proof. exact next_abs. Qed.
+Print Assumptions C07_next_abs.
+
+(* same tokens: types, texts, error kinds and positions *)
+Theorem C07_lexer : forall cs, fst (lex cs) = fst (lex [concat cs]).
+Proof. exact lex_chunk_independent. Qed.
+Print Assumptions C07_lexer.
+
+(* same line table whenever the lexer reached the end of input (always the case for an accepted program) *)
+Theorem C07_line_table : forall cs tk,
+  last_opt (fst (lex cs)) = Some tk -> ttyp tk = tEOF -> snd (lex cs) = snd (lex [concat cs]).
+Proof. exact lex_chunk_independent_lfs. Qed.
+Print Assumptions C07_line_table.
+
+(* after a lexical failure the table holds the newlines of the chunks received so far: a prefix *)
+Theorem C07_line_table_prefix : forall cs, exists k,
+  pending (final_cur cs) = skipn k cs /\ snd (lex cs) = newlines_at (concat (firstn k cs)) 0.
+Proof. exact lfs_prefix. Qed.
+Print Assumptions C07_line_table_prefix.
+
+(* the parser is a function of the token list: everything it produces except the line table is
+   the same for ParseFile over chunks cs and Parse on the whole input *)
+Theorem C07_parse_file : forall name cs,
+  let a := parse_chunks name cs in let b := parse_whole name (concat cs) in
+  pr_ok a = pr_ok b /\ pr_diags a = pr_diags b /\ pr_stats a = pr_stats b
+  /\ g_code (pr_prog a) = g_code (pr_prog b) /\ g_consts (pr_prog a) = g_consts (pr_prog b)
+  /\ g_pos (pr_prog a) = g_pos (pr_prog b) /\ g_name (pr_prog a) = g_name (pr_prog b).
+Proof.
+  intros name cs. unfold parse_whole, parse_chunks.
+  pose proof (lex_chunk_independent cs) as H.
+  destruct (lex cs) as [ts l]. destruct (lex [concat cs]) as [ts' l']. cbn [fst] in H. subst ts'.
+  cbn. repeat split; reflexivity.
+Qed.
+Print Assumptions C07_parse_file.
+
+(* non-vacuity: a boundary inside a 2-byte whitespace character and an empty chunk inside `var` *)
 Example C07_example :
-  let p := {| p_name := [110]; p_code := [9; 0; 2; 1]; p_consts := [VStr [97; 98]; VInt (-5); VFloat 4609434218613702656; VBool true; VNil];
-              p_pos := [3; 3; 300; 70000]; p_lfs := [5; 9] |} in
-  match dump p with Ok b => load_bytes b = Ok p | _ => False end.
-Proof. vm_compute. reflexivity. Qed.
-Print Assumptions C07_example.
+  fst (lex [bs "va"; []; bs "r x=1"; [194]; [160] ++ bs "print x"]) = fst (lex [bs "var x=1" ++ [194; 160] ++ bs "print x"])
+  /\ length (fst (lex [bs "va"; []; bs "r x=1"; [194]; [160] ++ bs "print x"])) = 7%nat.
+Proof. vm_compute. split; reflexivity. Qed.
